@@ -273,6 +273,16 @@ func (t *TempoController) ValuesV2(w http.ResponseWriter, r *http.Request) {
 	var cRes chan string
 
 	if timespan[0].Unix() == 0 {
+		// the tag names of the v2 API carry a scope; the stored keys do not
+		if strings.HasPrefix(tag, "span.") {
+			tag = tag[5:]
+		}
+		if strings.HasPrefix(tag, ".") {
+			tag = tag[1:]
+		}
+		if len(tag) >= 10 && strings.HasPrefix(tag, "resource.") {
+			tag = tag[9:]
+		}
 		cRes, err = t.Service.Values(internalCtx, tag)
 	} else {
 		cRes, err = t.Service.ValuesV2(internalCtx, tag, q, timespan[0], timespan[1], limit)
